@@ -1,6 +1,6 @@
 SPECIFICATION TSpec
 CONSTANTS
-  MintLower = "MINT"
+  MintLower = "MINT_LOW"
   Accounts = {"a1","a2","a3","a4","a5","a6","a7","a8"}
 ACTION_CONSTRAINT Verdict
 CHECK_DEADLOCK FALSE
